@@ -115,7 +115,7 @@ impl SignerCertifierService {
     //@ rewrite /async fn/ => /fn/
     //@ rewrite /\.await/ => //
     //@ rewrite /StdResult<\(\)>/ => /Result<(), StdError>/
-    //@ rewrite? /(?s)debug!\(.*?\);[ \t]*\n/ => //
+    //@ rewrite? /(?s)(?:slog::)?(?:debug|info|warn|trace|error)!\(.*?\);[ \t]*\n/ => //
     //@ spec ensures ret is Ok ==> marked_as_signed(&self.signed_beacon_store, beacon_to_sign)
     //@ spec     // a signature exists for this message ==> exactly that signature was published, under the beacon's signed entity type
     //@ spec     && (signature_for(&self.single_signer, protocol_message) is Some ==>
